@@ -19,6 +19,11 @@ CONTEXTS = [
     (['Identifier', 'Filter', 'Identifier', 'Eq'], ['Rbracket']), (['Filter'], ['Rbracket', 'Dot', 'Identifier']), (['Flatten'], []), (['At', 'Dot'], []), (['Literal'], []), (['QuotedIdentifier'], []),
     (['Identifier', 'Dot', 'Lbracket'], ['Rbracket']), (['Identifier', 'Dot', 'Lbrace'], ['Rbrace']), (['Identifier', 'Lparen', 'Identifier', 'Lparen'], ['Rparen', 'Rparen']),
     (['Identifier', 'Lbracket', 'Colon', 'Colon'], ['Rbracket']), (['Identifier', 'And', 'Not'], []), ([], ['Dot', 'Identifier']), ([], ['Lbracket', 'Number', 'Rbracket']), ([], ['Lparen', 'Rparen']), ([], ['Flatten']),
+    # what may follow a dot / sit between the members of a hash, a list or an argument list (closers supplied)
+    (['Identifier', 'Dot'], ['Rbracket']), (['Identifier', 'Dot'], ['Rbrace']), (['Identifier', 'Dot'], ['Rparen']), (['Identifier', 'Lbracket', 'Star', 'Rbracket', 'Dot'], ['Rbracket']),
+    (['Lbrace', 'Identifier', 'Colon', 'Identifier'], ['Colon', 'Identifier', 'Rbrace']), (['Lbrace', 'Identifier', 'Colon', 'Identifier'], ['Identifier', 'Colon', 'Identifier', 'Rbrace']),
+    (['Lbracket', 'Identifier'], ['Identifier', 'Rbracket']), (['Identifier', 'Lparen', 'Identifier'], ['Identifier', 'Rparen']), (['Identifier', 'Filter', 'Identifier'], ['Identifier', 'Rbracket']),
+    (['Identifier', 'Lbracket', 'Number'], ['Number', 'Rbracket']), (['Identifier', 'Lbracket', 'Number', 'Colon', 'Number'], ['Rbracket']), (['Identifier', 'Flatten'], ['Flatten']), (['Identifier', 'Flatten', 'Flatten'], []),
 ]
 
 def task(item):
